@@ -113,6 +113,9 @@ pub struct Launch {
     pub allocation: Vec<(u32, u64, Vec<(u32, u32, u32)>)>,
     pub allocation_ptr: usize,
     pub time_limit_ms: Option<u64>,
+    /// simulated time at which the handling future of the execution was polled first (the
+    /// worker starts the time-limit timer there)
+    pub first_poll_ms: Option<u64>,
     pub launch_failed: bool,
     /// step at which the execution observed a stop signal
     pub stop_seen: Option<(u64, StopKind)>,
@@ -183,6 +186,7 @@ impl TaskLauncher for FakeLauncher {
                 allocation: tako::verif::allocation_to_plain(ctx.allocation()),
                 allocation_ptr: ctx.allocation() as *const _ as usize,
                 time_limit_ms: None,
+                first_poll_ms: None,
                 launch_failed,
                 stop_seen: None,
                 ended: None,
@@ -477,6 +481,8 @@ pub struct RestoreInfo {
     /// (task, instance id, crash counter, deps) of all tasks handed to the core
     pub submitted: Vec<RestoredTask>,
     pub queues: Vec<u32>,
+    /// (queue, worker resources handed to the autoalloc service with the restored queue)
+    pub queue_resources: Vec<(u32, Option<String>)>,
     pub error: Option<String>,
 }
 
@@ -528,6 +534,7 @@ impl World {
                     file_len: bytes.len() as u64,
                     submitted: Vec::new(),
                     queues: Vec::new(),
+                    queue_resources: Vec::new(),
                     error: Some(format!("load failed: {e:?}")),
                 });
             }
@@ -717,6 +724,7 @@ impl World {
                 file_len,
                 submitted: Vec::new(),
                 queues: Vec::new(),
+                queue_resources: Vec::new(),
                 error: None,
             };
             let state_ref = inc.state_ref.clone();
@@ -733,6 +741,15 @@ impl World {
                 }
                 Ok(Ok((new_tasks, queues))) => {
                     info.queues = queues.iter().map(|q| q.queue_id).collect();
+                    info.queue_resources = queues
+                        .iter()
+                        .map(|q| {
+                            (
+                                q.queue_id,
+                                q.worker_resources.as_ref().map(|r| format!("{r:?}")),
+                            )
+                        })
+                        .collect();
                     for submit in &new_tasks {
                         for t in &submit.tasks {
                             let adj = submit.adjust_instance_id_and_crash_counters.get(&t.id);
@@ -1015,6 +1032,16 @@ impl World {
                 if !self.exec.is_woken(id) {
                     return false;
                 }
+                {
+                    let now = self.now_ms.get();
+                    let mut ls = self.launches.borrow_mut();
+                    if let Some(l) = ls.iter_mut().rev().find(|l| {
+                        l.worker == *w && l.task == (*job, *task) && l.instance == *instance
+                    }) && l.first_poll_ms.is_none()
+                    {
+                        l.first_poll_ms = Some(now);
+                    }
+                }
                 self.poll_task_fut(*w, id);
                 true
             }
@@ -1159,6 +1186,9 @@ impl World {
                     let qid = self.queue_next_id;
                     self.queue_next_id += 1;
                     self.live_queues.push(qid);
+                    // (the allocation that autoalloc would submit for the queue; workers that
+                    // connect "from it" make the queue learn their resources)
+                    let alloc_event = (qid, format!("simalloc-{qid}"));
                     inc.senders.events.on_allocation_queue_created(
                         qid,
                         hyperqueue::server::autoalloc::QueueParameters {
@@ -1178,6 +1208,9 @@ impl World {
                             idle_timeout: None,
                         },
                     );
+                    inc.senders
+                        .events
+                        .on_allocation_queued(alloc_event.0, alloc_event.1, 1);
                     true
                 } else {
                     let Some(pos) = self.live_queues.iter().position(|q| q == id) else {
@@ -1278,7 +1311,21 @@ impl World {
             return false;
         };
         let index = self.workers.len();
-        let configuration = wspec.configuration(index);
+        let mut configuration = wspec.configuration(index);
+        // every third worker comes from the allocation of a live allocation queue (if any)
+        if !self.live_queues.is_empty() && index % 3 == 1 {
+            let q = self.live_queues[index % self.live_queues.len()];
+            let info = hyperqueue::common::manager::info::ManagerInfo {
+                manager: hyperqueue::common::manager::info::ManagerType::Slurm,
+                allocation_id: format!("simalloc-{q}"),
+                time_limit: None,
+                max_memory_mb: None,
+            };
+            configuration.extra.insert(
+                "JobManager".to_string(),
+                serde_json::to_string(&info).expect("manager info"),
+            );
+        }
         let (worker_id, mut s2w_rx) = inc
             .server
             .register_worker(configuration.clone(), tako::verif::now());
@@ -1792,6 +1839,7 @@ impl World {
                     file_len: keep,
                     submitted: Vec::new(),
                     queues: Vec::new(),
+                    queue_resources: Vec::new(),
                     error: Some(format!("load failed: {e:?}")),
                 });
                 return Ok(true);
